@@ -279,7 +279,11 @@ func (f *FieldCopyToGenerator) genObject() *j.Statement {
 	m := NewMessageCopyToGenerator(f.Message, f.i)
 
 	return f.nextField("a", func(g *j.Group) {
-		fieldName := f.genEmbeddedSource(g)
+		fieldName := "obj." + f.Name
+		if f.IsNullable || !m.IsEmpty {
+			// (a message without fields that is held by value is never read)
+			fieldName = f.genEmbeddedSource(g)
+		}
 		if f.OneOfName != "" {
 			f.genOneOfStub(g)
 		}
